@@ -221,7 +221,7 @@ type FnResult struct {
 func (e *Engine) newFnCtx(fn *ssa.Function, ctr *Contract) *FnCtx {
 	x := &FnCtx{eng: e, tb: NewTB(), fn: fn, key: funcKey(fn), contract: ctr, heapSorts: map[string]*Sort{},
 		axiomSeen: map[int]bool{}, bits: map[int]int{}, tz: map[int]int{}, abstr: map[string]int{},
-		selMemo: map[[2]int]*Term{}, calleeUse: map[string]int{}, usedAssumed: map[string]bool{}, usedInlined: map[string]bool{}}
+		selMemo: map[[2]int]*Term{}, madeTypes: map[string]types.Type{}, calleeUse: map[string]int{}, usedAssumed: map[string]bool{}, usedInlined: map[string]bool{}}
 	x.bv = ctr != nil && ctr.Mode == "bv"
 	return x
 }
@@ -397,6 +397,9 @@ func (x *FnCtx) paramValue(st *State, p *ssa.Parameter, isRecv bool) Value {
 	}
 	v := tb.Var(name, x.sortOf(t))
 	st.pc = tb.And(st.pc, x.typeInv(v, t, st.heap))
+	if _, isI := t.Underlying().(*types.Interface); isI && v.Sort == IntSort {
+		st.pc = tb.And(st.pc, tb.Implies(tb.Ne(v, tb.IntC(0)), tb.UF("implements."+typeKey(t), BoolSort, x.typeOf(v))))
+	}
 	if w, s, ok := intInfo(t); ok && !s && !x.bv {
 		x.setBits(v, w)
 	}
